@@ -67,8 +67,19 @@ Record projspec := mkps {
   ps_key : bool
 }.
 
+(* the order in which one call releases several locks in a row is not part of any property: maximal runs of
+   consecutive successful releases are compared as sorted by lock *)
+Definition is_ok_rel (e : ev) : bool :=
+  match e with ERaw _ (OUnlock | OUnlockSh) _ RUnit => true | _ => false end.
+Definition ev_lockid (e : ev) : nat := match e with ERaw _ _ l _ => l | _ => 0 end.
+Fixpoint norm_runs (run : list ev) (evs : list ev) : list ev :=
+  match evs with
+  | [] => isort ev_lockid run
+  | e :: r => if is_ok_rel e then norm_runs (e :: run) r else isort ev_lockid run ++ e :: norm_runs [] r
+  end.
+
 Definition project (p : projspec) (c : callobs) : callobs :=
-  mkco (co_tid c) (co_ret c) (filter (ps_ev p) (co_evs c))
+  mkco (co_tid c) (co_ret c) (norm_runs [] (filter (ps_ev p) (co_evs c)))
        (if ps_holds p then co_holds c else [])
        (if ps_psn p then co_psn c else [])
        (if ps_key p then co_keyfree c else true).
